@@ -16,7 +16,7 @@ def _nontrivial(t):
 def run(tier):
     rnd = random.Random(common.seed() + 7)
     n = 140 if tier == 'quick' else 3000
-    jobs = ec.random_jobs(rnd, n, label='items', gen_kw=dict(p_items=0.45, p_sub=0.1, p_cmd=0.03, p_guard=0.15))
+    jobs = ec.random_jobs(rnd, n, label='items', gen_kw=dict(partial_joins=False, p_items=0.45, p_sub=0.1, p_cmd=0.03, p_guard=0.15))
     for k, j in enumerate(jobs):
         if k % 7 == 3:
             j['ops'] = [dict(at=80, op='rerun', reset=bool(k % 2))]
